@@ -57,6 +57,11 @@ package tredactemail
 //@   ensures[dotted-unless-truncated] result != -1 && result < len(src) ==> exists d int :: atIndex < d && d + 1 < result && src[d] == 46 && isword(src[d+1])
 //@   ensures[numeric-looking-domain-is-not-an-address] result != -1 && result - atIndex - 1 >= 2 ==> !(isdig(src[atIndex+1]) && isdig(src[result-1]))
 //@   ensures[truncated-domain-accepted] (forall k int :: atIndex < k && k < len(src) ==> isaddr(src[k]) && src[k] != 46) && !(len(src) - atIndex - 1 >= 2 && isdig(src[atIndex+1]) && isdig(src[len(src)-1])) ==> result == len(src)
+// completeness ("every address of the supported shape is replaced"): a domain of the shape - address characters up to its
+// first dot at d, a word character behind the dot, address characters up to e where the run ends - that does not look numeric
+// IS the address's domain, whatever follows it
+//@   ensures[dotted-domain-of-the-supported-shape-is-accepted] forall d int, e int :: atIndex < d && d + 1 < e && e <= len(src) && src[d] == 46 && isword(src[d+1]) && (e == len(src) || !isaddr(src[e])) && !(isdig(src[atIndex+1]) && isdig(src[e-1]))
+//@        && (forall k int :: atIndex < k && k < d ==> isaddr(src[k]) && src[k] != 46) && (forall k int :: d + 1 < k && k < e ==> isaddr(src[k])) ==> result == e
 //@   loop 1: invariant atIndex + 1 <= i && i <= len(src) && dotIndex == -1 && forall k int :: atIndex < k && k < i ==> isaddr(src[k]) && src[k] != 46
 //@   loop 1: decreases len(src) - i
 //@   loop 2: invariant dotIndex + 2 <= endIndex && endIndex <= len(src) && forall k int :: dotIndex + 1 < k && k < endIndex ==> isaddr(src[k])
